@@ -10,6 +10,8 @@ import (
 	"strings"
 	"testing"
 
+	sdkmath "cosmossdk.io/math"
+	"github.com/ethereum/go-ethereum/common"
 	"github.com/ethereum/go-ethereum/crypto"
 	"github.com/palomachain/paloma/v2/verifharness/emit"
 	"github.com/palomachain/paloma/v2/x/consensus/keeper/consensus"
@@ -18,6 +20,7 @@ import (
 	evmtypes "github.com/palomachain/paloma/v2/x/evm/types"
 	"github.com/palomachain/paloma/v2/x/skyway/keeper"
 	"github.com/palomachain/paloma/v2/x/skyway/types"
+	treasurytypes "github.com/palomachain/paloma/v2/x/treasury/types"
 	valsettypes "github.com/palomachain/paloma/v2/x/valset/types"
 )
 
@@ -56,6 +59,10 @@ func replayCorpus(t *testing.T, run *emit.Run) {
 			scriptedPubkeyAlias(t, run, true)
 		case "queue-valset-republished-same-members":
 			scriptedValsetRepublish(t, run)
+		case "queue-compass-upgrade-over-signed-message":
+			scriptedCompassUpgradeOverSigned(t, run)
+		case "queue-fees-attached-after-election":
+			scriptedLateFees(t, run)
 		case "batch-compass-redeploy":
 			scriptedRedeploy(t, run)
 		case "batch-two-chains-compass-redeploy":
@@ -395,5 +402,107 @@ func scriptedReleasedKey(t *testing.T, run *emit.Run) {
 	h.step(fmt.Sprintf("C06.BCnf 0 %d 1 %d (C06.COver %d %s)", n, idOf(h.addrIDs, old), idOf(h.addrIDs, old), ver.coq), c,
 		map[string]any{"op": "confirm", "validator": 0, "nonce": n, "eth_signer": h.keyAddr(0).Hex(), "signed": "current, with the key released by the re-registration", "signature": hex.EncodeToString(sgb)})
 	h.confirmAs(0, n, true, true)
+	h.finish()
+}
+
+// scriptPutLogicCall / scriptSign: explicit steps for the scripted queue scenarios.
+func (h *qhist) scriptPutLogicCall(chain string, assignee int, needs bool, payload byte) uint64 {
+	em := &evmtypes.Message{ChainReferenceID: chain, TurnstoneID: h.tidOf(chain), Assignee: h.e.vals[assignee].String(), AssigneeRemoteAddress: h.keyAddr(assignee).Hex(),
+		Action: &evmtypes.Message_SubmitLogicCall{SubmitLogicCall: &evmtypes.SubmitLogicCall{HexContractAddress: "0x0000000000000000000000000000000000000001",
+			Payload: []byte{payload}, SenderAddress: []byte("alice"), Deadline: 1700001000}}}
+	kind, body, _ := describe(em)
+	id, err := h.e.cons.PutMessageInQueue(h.e.ctx, turnstoneQueue(chain), em, &consensus.PutOptions{RequireSignatures: true, RequireGasEstimation: needs})
+	if err != nil {
+		h.t.Fatal(err)
+	}
+	h.items = append(h.items, id)
+	h.chainOf[id] = chain
+	h.step(fmt.Sprintf("C06.QPut %d %d %d %d %s", qchainID(chain), kind, idOf(h.bodyIDs, body), idOf(h.relIDs, lowerOf(em.AssigneeRemoteAddress)), emit.Bool(needs)), 0,
+		map[string]any{"op": "put", "chain": chain, "kind": kind, "id": id, "needs_estimate": needs, "relayer": em.AssigneeRemoteAddress})
+	return id
+}
+
+func (h *qhist) scriptSign(v int, id uint64, chain string) {
+	ver := h.vers[id][len(h.vers[id])-1]
+	row := h.reg[v][0]
+	key := -1
+	for i := range h.keys {
+		if h.keyAddr(i) == common.BytesToAddress(row.key) {
+			key = i
+		}
+	}
+	sig, err := crypto.Sign(crypto.Keccak256(append([]byte(evmkeeper.SignaturePrefix), ver.bytes...)), h.keys[key])
+	if err != nil {
+		h.t.Fatal(err)
+	}
+	err = h.e.cons.AddMessageSignature(h.e.ctx, h.e.vals[v], []*consensustypes.ConsensusMessageSignature{
+		{Id: id, QueueTypeName: turnstoneQueue(chain), Signature: sig, SignedByAddress: row.addr}})
+	c := classOf(err)
+	if c == 50 {
+		h.t.Fatalf("AddMessageSignature: %v", err)
+	}
+	if err == nil {
+		h.regAt[fmt.Sprintf("%d/%d", id, v)] = hex.EncodeToString(row.key)
+	}
+	h.step(fmt.Sprintf("C06.QSign %d %d %d %d (C06.SOver %d %s)", v, qchainID(chain), id, idOf(h.addrIDs, row.addr), h.ethID(h.keyAddr(key)), ver.coq), c,
+		map[string]any{"op": "sign", "validator": v, "chain": chain, "id": id, "named_address": row.addr, "signing_key": key, "signed": "current",
+			"bytes": hex.EncodeToString(ver.bytes), "signature": hex.EncodeToString(sig)})
+}
+
+func (h *qhist) scriptRegisterAll(chain string) {
+	for v := 0; v < nVals; v++ {
+		a := h.keyAddr(v)
+		h.opRegister(v, []acctRow{{chain: chain, addr: a.Hex(), key: a.Bytes()}})
+	}
+}
+
+// scriptedCompassUpgradeOverSigned (seeded C06-K): a logic call queued for compass A is signed by two validators; compass B
+// (another unique id) is activated for the chain.  The compass id is hashed into the call's signing bytes: if evm moves the
+// call over to the new compass, nothing signed for A may stay on it.
+func scriptedCompassUpgradeOverSigned(t *testing.T, run *emit.Run) {
+	h := newQHist(t, run)
+	chain := qchains[0]
+	h.scriptRegisterAll(chain)
+	id := h.scriptPutLogicCall(chain, 2, false, 3)
+	h.scriptSign(0, id, chain)
+	h.scriptSign(1, id, chain)
+	h.opCompassUpgradeOn(chain)
+	h.scriptSign(3, id, chain)
+	h.finish()
+}
+
+// scriptedLateFees (seeded C06-M): the assignee of a fee paying message has withdrawn its relayer fee when the gas estimates
+// reach consensus (the fees cannot be calculated: the election is rolled back as a whole); a validator signs; the fee
+// setting comes back and the end-blocker runs again.  Whenever the fees get attached, no signature given before may stay.
+func scriptedLateFees(t *testing.T, run *emit.Run) {
+	h := newQHist(t, run)
+	chain := qchains[0]
+	h.scriptRegisterAll(chain)
+	setFee := func(v int, on bool) {
+		rfs := &treasurytypes.RelayerFeeSetting{ValAddress: h.e.vals[v].String()}
+		mult := sdkmath.LegacyZeroDec()
+		if on {
+			mult = sdkmath.LegacyNewDecWithPrec(150, 2)
+		}
+		for _, c := range qchains {
+			rfs.Fees = append(rfs.Fees, treasurytypes.RelayerFeeSetting_FeeSetting{ChainReferenceId: c, Multiplicator: mult})
+		}
+		if err := h.e.tre.SetRelayerFee(h.e.ctx, h.e.vals[v], rfs); err != nil {
+			t.Fatal(err)
+		}
+		h.replay = append(h.replay, map[string]any{"op": "relayer fee setting", "validator": v, "usable": on})
+	}
+	setFee(2, false)
+	id := h.scriptPutLogicCall(chain, 2, true, 4)
+	for v := 0; v < nVals; v++ {
+		h.opEstimate(id, chain, v, 21000)
+	}
+	h.opEndBlock()
+	h.scriptSign(0, id, chain)
+	h.scriptSign(1, id, chain)
+	setFee(2, true)
+	h.opEndBlock()
+	h.opEndBlock()
+	h.scriptSign(3, id, chain)
 	h.finish()
 }
